@@ -608,7 +608,30 @@ pub fn scratch_dir() -> String {
     d
 }
 
+/// at most SYMX_JOBS (16) solver processes at a time, however many harness threads are running
+static PERMITS: Mutex<usize> = Mutex::new(0);
+static PERMIT_CV: std::sync::Condvar = std::sync::Condvar::new();
+struct Permit;
+impl Permit {
+    fn take() -> Permit {
+        let max: usize = std::env::var("SYMX_JOBS").ok().and_then(|s| s.parse().ok()).unwrap_or(16);
+        let mut n = PERMITS.lock().unwrap();
+        while *n >= max {
+            n = PERMIT_CV.wait(n).unwrap();
+        }
+        *n += 1;
+        Permit
+    }
+}
+impl Drop for Permit {
+    fn drop(&mut self) {
+        *PERMITS.lock().unwrap() -= 1;
+        PERMIT_CV.notify_one();
+    }
+}
+
 fn run_one(solver: &str, q: &Query, tag: &str) -> (Answer, f64) {
+    let _permit = Permit::take();
     let t = Instant::now();
     // unique per process *and* per call: harnesses may run in parallel threads
     static SEQ: AtomicUsize = AtomicUsize::new(0);
